@@ -8,9 +8,12 @@ import (
 	"os"
 	"path/filepath"
 	"reflect"
+	"regexp"
 	"strconv"
 	"strings"
 	"time"
+
+	"github.com/spf13/viper"
 
 	"verifharness/hx"
 
@@ -282,7 +285,7 @@ func (r *runner) doLoad(o hx.Op) {
 		if strings.HasPrefix(err.Error(), "panic:") {
 			r.c.Report("C18/panic/load", err.Error())
 		} else {
-			r.c.Report("C18/load-error/"+o.Str("f"), "config.Load fails on values of the options' types: "+err.Error())
+			r.c.Report("C18/load-error/"+loadErrCause(err, o.Str("f")), "config.Load fails on values of the options' types: "+err.Error())
 		}
 		r.c.Emit("err:load")
 		return
@@ -353,6 +356,16 @@ func (r *runner) doLoad(o hx.Op) {
 	r.c.Emit("ok %s cfg=%s", focus, r.cfgList(got))
 }
 
+var quotedKeyRe = regexp.MustCompile(`'([A-Za-z0-9_.\[\]-]+)'`)
+
+// loadErrCause names the key the decoder complains about (else the option under test).
+func loadErrCause(err error, focus string) string {
+	if m := quotedKeyRe.FindStringSubmatch(err.Error()); m != nil && m[1] != "" {
+		return strings.ToLower(m[1])
+	}
+	return focus
+}
+
 func (r *runner) doFlagReach(o hx.Op) {
 	fl, ok := parsePairs(o.Str("fl"))
 	if !ok || len(fl) != 1 {
@@ -412,11 +425,17 @@ func (r *runner) doFlagReach(o hx.Op) {
 	}
 }
 
-func (r *runner) doSave(o hx.Op) {
+func (r *runner) doSave(o hx.Op, exotic bool) {
 	set, ok := parsePairs(o.Str("set"))
 	if !ok {
 		r.c.Emit("bad-op")
 		return
+	}
+	if exotic {
+		// not part of the load history, outcome not predicted by the model
+		saved := DeepCopy(config.DefaultConfig)
+		defer restoreFrom(saved)
+		RestoreDefaults()
 	}
 	cfg := DeepCopy(pristine)
 	for _, p := range set {
@@ -449,18 +468,39 @@ func (r *runner) doSave(o hx.Op) {
 	back, err := RealLoad(home, nil)
 	if err != nil {
 		r.c.Report("C18/saveload/load-error", "a configuration written by SaveAsYaml does not load: "+err.Error())
-		r.c.Emit("err:load")
+		if exotic {
+			r.c.Emit("checked")
+		} else {
+			r.c.Emit("err:load")
+		}
 		return
 	}
 	got := Snapshot(&back, r.fs)
+	// did viper manage to read the file at all? (Load ignores the error of ReadInConfig)
+	pv := viper.New()
+	pv.SetConfigFile(cfg.ConfigPath())
+	parseErr := pv.ReadInConfig()
 	for i, f := range r.fs {
 		if isOption(f) && got[i] != want[i] {
-			cause := "value"
-			if got[i] == r.prist[i] || got[i] == before[i] {
-				cause = "lost"
+			w, g := want[i], got[i]
+			switch {
+			case parseErr != nil:
+				r.c.Report("C18/saveload/file-unparsable-silently-ignored", fmt.Sprintf("SaveAsYaml wrote a file viper cannot parse (%v); Load ignores the error and silently returns the defaults (saved %s=%q, loaded %q)", parseErr, f.Go, w, g))
+			case f.Kind == "string" && strings.Contains(w, "\r"):
+				r.c.Report("C18/saveload/carriage-return-rewritten", fmt.Sprintf("saved %s=%q, loaded %q", f.Go, w, g))
+			case f.Kind == "string" && (expFloatRe.MatchString(w) || infNanRe.MatchString(w)):
+				r.c.Report("C18/saveload/numeric-looking-string-retyped", fmt.Sprintf("SaveAsYaml writes the string unquoted, Load reads a number: saved %s=%q, loaded %q", f.Go, w, g))
+			case g == r.prist[i] || g == before[i]:
+				r.c.Report("C18/saveload/lost/"+f.Go, fmt.Sprintf("saved %s=%q, loaded %q", f.Go, w, g))
+			default:
+				r.c.Report("C18/saveload/value/"+f.Go, fmt.Sprintf("saved %s=%q, loaded %q", f.Go, w, g))
 			}
-			r.c.Report("C18/saveload/"+cause+"/"+f.Go, fmt.Sprintf("saved %s=%q, loaded %q", f.Go, want[i], got[i]))
 		}
+	}
+	if exotic {
+		r.c.Hit("savex")
+		r.c.Emit("checked")
+		return
 	}
 	r.checkDefaultsUntouched(before)
 	r.c.Hit("save")
@@ -618,7 +658,9 @@ func Run(c *hx.Ctx) {
 			case "flagreach":
 				r.doFlagReach(o)
 			case "save":
-				r.doSave(o)
+				r.doSave(o, false)
+			case "savex":
+				r.doSave(o, true)
 			case "genesis":
 				r.doGenesis(o)
 			default:
